@@ -37,9 +37,12 @@ class Slice:
 
 
 class Slicer:
-    def __init__(self, prog, max_depth=6):
+    def __init__(self, prog, max_depth=6, stop_at=None):
+        """stop_at(type string) -> bool: a value of such a type that is the result of a call (or of an await) is taken as a
+        source of its own (root ("source", body, local)); how it was obtained is not part of the slice"""
         self.prog = prog
         self.max_depth = max_depth
+        self.stop_at = stop_at
 
     def of(self, body_id, x, env=None):
         """slice of Operand / Place / local index `x` in body_id.
@@ -203,6 +206,9 @@ class Slicer:
                     res.ops.add("cast:%s->%s" % (body.ty(rv.j["from"]), body.ty(rv.j["to"])))
             else:
                 t = body.blocks[bb].term
+                if self.stop_at is not None and self.stop_at(body.local_ty(local) or ""):
+                    res.roots.add(("source", body_id, local))
+                    continue
                 if t.k == "call":
                     self._call(body_id, bb, t, env, res, seen, depth)
                 elif t.k == "yield":
